@@ -621,6 +621,25 @@ LOADCB(1) LOADCB(2) LOADCB(4) LOADCB(8) LOADCB(16)
 TSANCB(1) TSANCB(2) TSANCB(4) TSANCB(8) TSANCB(16)
 void __tsan_read_range(void *a, long n) { if (lib_active() && n > 0) { check_access((uintptr_t)a, (size_t)n, false, (uintptr_t)__builtin_return_address(0)); preempt_point(false, (uintptr_t)a); } }
 void __tsan_write_range(void *a, long n) { if (lib_active() && n > 0) { check_access((uintptr_t)a, (size_t)n, true, (uintptr_t)__builtin_return_address(0)); preempt_point(true, (uintptr_t)a); } }
+// atomic operations are announced by the same pass as calls that replace them; they are performed here, after the same checks
+// (a lock word or a counter in static storage is a store to static storage like any other)
+#define TSAN_ATOMIC(N, T)                                                                                                                     \
+    static inline void tsan_atomic_chk##N(const volatile void *a, bool st, uintptr_t pc) { if (lib_active()) { check_access((uintptr_t)a, N / 8, st, pc); preempt_point(st, (uintptr_t)a); } } \
+    T __tsan_atomic##N##_load(const volatile T *a, int) { tsan_atomic_chk##N(a, false, (uintptr_t)__builtin_return_address(0)); return __atomic_load_n(a, __ATOMIC_SEQ_CST); } \
+    void __tsan_atomic##N##_store(volatile T *a, T v, int) { tsan_atomic_chk##N(a, true, (uintptr_t)__builtin_return_address(0)); __atomic_store_n(a, v, __ATOMIC_SEQ_CST); } \
+    T __tsan_atomic##N##_exchange(volatile T *a, T v, int) { tsan_atomic_chk##N(a, true, (uintptr_t)__builtin_return_address(0)); return __atomic_exchange_n(a, v, __ATOMIC_SEQ_CST); } \
+    T __tsan_atomic##N##_fetch_add(volatile T *a, T v, int) { tsan_atomic_chk##N(a, true, (uintptr_t)__builtin_return_address(0)); return __atomic_fetch_add(a, v, __ATOMIC_SEQ_CST); } \
+    T __tsan_atomic##N##_fetch_sub(volatile T *a, T v, int) { tsan_atomic_chk##N(a, true, (uintptr_t)__builtin_return_address(0)); return __atomic_fetch_sub(a, v, __ATOMIC_SEQ_CST); } \
+    T __tsan_atomic##N##_fetch_and(volatile T *a, T v, int) { tsan_atomic_chk##N(a, true, (uintptr_t)__builtin_return_address(0)); return __atomic_fetch_and(a, v, __ATOMIC_SEQ_CST); } \
+    T __tsan_atomic##N##_fetch_or(volatile T *a, T v, int) { tsan_atomic_chk##N(a, true, (uintptr_t)__builtin_return_address(0)); return __atomic_fetch_or(a, v, __ATOMIC_SEQ_CST); } \
+    T __tsan_atomic##N##_fetch_xor(volatile T *a, T v, int) { tsan_atomic_chk##N(a, true, (uintptr_t)__builtin_return_address(0)); return __atomic_fetch_xor(a, v, __ATOMIC_SEQ_CST); } \
+    T __tsan_atomic##N##_fetch_nand(volatile T *a, T v, int) { tsan_atomic_chk##N(a, true, (uintptr_t)__builtin_return_address(0)); return __atomic_fetch_nand(a, v, __ATOMIC_SEQ_CST); } \
+    int __tsan_atomic##N##_compare_exchange_strong(volatile T *a, T *c, T v, int, int) { tsan_atomic_chk##N(a, true, (uintptr_t)__builtin_return_address(0)); return __atomic_compare_exchange_n(a, c, v, false, __ATOMIC_SEQ_CST, __ATOMIC_SEQ_CST); } \
+    int __tsan_atomic##N##_compare_exchange_weak(volatile T *a, T *c, T v, int, int) { tsan_atomic_chk##N(a, true, (uintptr_t)__builtin_return_address(0)); return __atomic_compare_exchange_n(a, c, v, false, __ATOMIC_SEQ_CST, __ATOMIC_SEQ_CST); } \
+    T __tsan_atomic##N##_compare_exchange_val(volatile T *a, T c, T v, int, int) { tsan_atomic_chk##N(a, true, (uintptr_t)__builtin_return_address(0)); __atomic_compare_exchange_n(a, &c, v, false, __ATOMIC_SEQ_CST, __ATOMIC_SEQ_CST); return c; }
+TSAN_ATOMIC(8, uint8_t) TSAN_ATOMIC(16, uint16_t) TSAN_ATOMIC(32, uint32_t) TSAN_ATOMIC(64, uint64_t)
+void __tsan_atomic_thread_fence(int) {}
+void __tsan_atomic_signal_fence(int) {}
 void __tsan_init(void) {}
 void __tsan_func_entry(void *) {}
 void __tsan_func_exit(void) {}
